@@ -217,8 +217,10 @@ protected:
 
     uint rule;
 
-    // The VByte is firstly extracted
-    while (read < 2) {
+    // The VByte is firstly extracted: two bytes at least, and every byte of a
+    // longer VByte (its last byte is the first one with the high bit set)
+    uint vbend = 0;
+    while ((read < 2) || (vbend == read)) {
       rule = decodeSymbol();
 
       if (rule >= rp->terminals)
@@ -227,6 +229,9 @@ protected:
         vb[read] = (uchar)rule;
         read++;
       }
+
+      while ((vbend < read) && !(vb[vbend] & 0x80))
+        vbend++;
     }
 
     uint advanced = VByte::decode(&chunk.strLen, vb);
